@@ -14,8 +14,8 @@ import (
 
 func init() {
 	core.Register(&core.Check{
-		ID: "C26",
-		Rule: "cases: for every linked message type, (a) totality: JSON and text documents produced by the marshalers from PRNG-filled messages, then mutated (token and byte level: deletions, duplications, swaps, junk, truncation) and raw PRNG bytes / token soups, decoded with and without DiscardUnknown - no panic or crash; (b) uniqueness: documents that by construction set one non-repeated field twice (same name, JSON name + proto name, [extension] name, group name, field numbers above 64) or two members of one oneof - must be rejected; (c) depth: documents nested to RecursionLimit+2 and beyond (limits 1,2,3,5,10,100 and the default) through recursive message cycles, Value/ListValue/Struct, Any in Any, and through the skip paths (unknown fields under DiscardUnknown, reserved field names, unknown lists) - must be rejected, while the same shape at limit-2 is accepted; distinct = distinct documents; non-trivial = document longer than 2 bytes",
+		ID:     "C26",
+		Rule:   "cases: for every linked message type, (a) totality: JSON and text documents produced by the marshalers from PRNG-filled messages, then mutated (token and byte level: deletions, duplications, swaps, junk, truncation) and raw PRNG bytes / token soups, decoded with and without DiscardUnknown - no panic or crash; (b) uniqueness: documents that by construction set one non-repeated field twice (same name, JSON name + proto name, [extension] name, group name, field numbers above 64) or two members of one oneof - must be rejected; (c) depth: documents nested to RecursionLimit+2 and beyond (limits 1,2,3,5,10,100 and the default) through recursive message cycles, Value/ListValue/Struct, Any in Any, and through the skip paths (unknown fields under DiscardUnknown, reserved field names, unknown lists) - must be rejected, while the same shape at limit-2 is accepted; distinct = distinct documents; non-trivial = document longer than 2 bytes",
 		Assume: []string{"documents are built by the library's own marshalers from single-field messages and concatenated, so 'sets the field twice' holds by construction"},
 		Batches: func(tier string) []core.Batch {
 			bs := stdBatches([]string{"base"}, 12)
@@ -222,10 +222,10 @@ func c26Types(c *core.Ctx, b core.Batch) {
 			// (b) uniqueness
 			fds, singles := c26Singles(r, mt, dyn)
 			type form struct {
-				fd         protoreflect.FieldDescriptor
-				json1, jp  string // JSON-name form and proto-name form (inner of the object)
-				text       string
-				jok, tok   bool
+				fd        protoreflect.FieldDescriptor
+				json1, jp string // JSON-name form and proto-name form (inner of the object)
+				text      string
+				jok, tok  bool
 			}
 			var forms []form
 			for i, fd := range fds {
